@@ -40,7 +40,7 @@ def build_world(rng, w, n_states=1, calls_per_action=2, noise=True, name="dom", 
     text = C.render2(tree, rng) if noise == 2 else G.render(tree, rng, noise)
     probes = []
     if hints:
-        n_states = 2 if hints.get("random_only") else 3
+        n_states = hints.get("n_states", 2 if hints.get("random_only") else 3)
     for k in range(n_states):
         st = C.hinted_state(rng, w, objs, hints, k) if hints else G.gen_state(rng, w, objs)
         ptxt = G.problem_text(w, objs, st, domain=name)
@@ -65,7 +65,7 @@ def build_world(rng, w, n_states=1, calls_per_action=2, noise=True, name="dom", 
                                "perm_seed": 0, "nwhen": nwhen, "nuniv": nuniv})
     return {"domain_text": text, "objects": objs, "oof": w.oof, "oof_kind": w.oof_kind, "probes": probes,
             "features": sorted(w.features), "tree": tree, "source": "generated",
-            "shape": hints["tag"] if hints else None,
+            "shape": hints.get("tag") if hints else None,
             "oof_action": getattr(w, "oof_action", "") if w.oof and w.oof_kind not in VOCAB_KINDS else ""}
 
 
@@ -164,6 +164,8 @@ def generate(rng, tier):
         worlds.append(build_world(rng, w, noise=2 if i % 4 == 3 else True))
     planted = {}
     for kind in C.PLANTERS:
+        if kind.startswith("neg-cmp:"):
+            continue                      # planted last (below), so that the stream before them is the one of earlier rounds
         done, tries = 0, 0
         while done < per_kind and tries < 200:
             tries += 1
@@ -196,6 +198,17 @@ def generate(rng, tier):
                 worlds.append(build_world(rng, w, noise=[False, True, 2][(done + len(shaped)) % 3], hints=hints))
                 done += 1
         shaped[key] = done
+    # negated numeric comparisons, every operator x context (quick: one world each, thorough: four), probed on the action
+    # that carries the construct in states where the two sides are equal / within EPSILON / clearly apart, both ways
+    for kind in [k for k in C.PLANTERS if k.startswith("neg-cmp:")]:
+        done, tries = 0, 0
+        while done < max(1, per_kind // 2) and tries < 200:
+            tries += 1
+            w = G.gen_world(rng, max_actions=2)
+            if C.plant(rng, w, kind):
+                worlds.append(build_world(rng, w, noise=[False, True, 2][(done + len(planted)) % 3], hints=w.probe_hints))
+                done += 1
+        planted[kind] = done
     return worlds, planted, shaped
 
 
@@ -329,7 +342,10 @@ def run(args):
                    "functions, 1-3 actions; and/or/not/=/forall/comparison preconditions, add/del/assign/increase/decrease/when/forall-when effects), "
                    "rendered with layout, letter-case and comment noise (every 4th with c01_gen.render2: mixed-case names and variables, comments with "
                    "parentheses, CR LF, no blanks next to parentheses) + one domain per construct outside the supported fragment (c01_gen.PLANTERS: "
-                   "every form the property names and neighbouring ones; expected: faithful, or an exception at parse or at every first use) + "
+                   "every form the property names and neighbouring ones; expected: faithful, or an exception at parse or at every first use; the negated numeric comparisons "
+                   "'neg-cmp:<op>:<context>' = (not (<op> a b)) for <= >= < > = as a precondition / under a nested and / or / in a forall "
+                   "body / as a (nested, forall-) when antecedent are probed on their action in 7 states: both sides equal, EPSILON/2 "
+                   "apart, 1 apart, 2 EPSILON apart - each both ways -, sibling literals neutral) + "
                    "in-fragment SHAPES (c01_gen.SHAPES, expected: accepted and faithful): sibling conditions / conditional effects that are the same "
                    "text up to a far decimal of a constant (agreeing to the library's printing precisions, read from the library: "
                    "numeric_config.condition_digits / digits), an exact copy, operand order, one polarity, (= a b) vs (not (= a b)), the quantified "
